@@ -112,7 +112,9 @@ StorageChecks(cfg, c, x, blocks) ==
     Chk("C02", "contiguous-views",      TRUE, x.ok),
     Chk("C02", "inlinable",             TRUE, x.inlb <=> (x.sz <= n)),
     Chk("C16", "non-member begin/end/size/ssize/empty/data agree with the members", TRUE, x.nm),
-    Chk("C12", "size<=max_size",        TRUE, x.sz <= Max(x.max, n)) }
+    Chk("C12", "size<=max_size",        TRUE, x.sz <= Max(x.max, n)),
+    Chk("C12", "max_size() = min(allocator's max_size(), max of difference_type)", "allocMax" \in DOMAIN cfg,
+        x.max = Min(cfg.allocMax, cfg.diffMax)) }
 
 LedgerChecks(cfg, post) ==
   LET owned == {StN(post[c]) : c \in {d \in {"A", "B"} : post[d].p /\ Heap(post[d])}}
